@@ -10,7 +10,9 @@ EXPLANATION = (
     "(R5) Sleep::poll registers an unscheduled pending sleep and stores the handle, resolves it when ready; the handle's Drop "
     "removes the entry unless resolved; a handle returned by TimerSlotEntryHandle::reset is only kept if reset defuses the old "
     "handle; (R6) Timeout polls the value before the delay and maps value-ready to Ok; (R7) Interval returns the old deadline "
-    "and re-arms to deadline+period or the missed-tick result. Decides these necessary conditions only; not firing instants over programs.")
+    "and re-arms to deadline+period or the missed-tick result. "
+    '(R7 per path: an on-time tick is re-armed at its own deadline + period — never relative to `now` — and a missed tick by the configured MissedTickBehavior from (deadline, now, period), whose table Burst/Delay/Skip is checked row by row; R1 also: the yield of bump is lossless — every popped waker is woken.) '
+    "Decides these necessary conditions only; not firing instants over programs.")
 ASSUMPTIONS = ["VecDeque::binary_search_by/insert keep the pending list sorted by time", "wakers wake their tasks (tokio)"]
 
 D = 'des::time::driver::'
